@@ -202,3 +202,58 @@ def random_bases(rng, N, n, alphabet="XYZ", p_z=0.4):
         else:
             rows.append(list(rng.choice(list(alphabet), size=n)))
     return np.array(rows, dtype=str).reshape(N, n)
+
+
+MEMORY_FORMS = ["contiguous", "strided", "column-major", "offset-slice", "expanded"]
+
+
+def memory_form(t, rng, form=None):
+    """The same values as the 2-D (or 1-D) tensor `t` held in another legal memory form (what a user gets from slicing,
+    transposing or expanding): returns (tensor, form name).  'expanded' (stride 0) is only possible when all rows are
+    equal and otherwise falls back to 'strided'."""
+    form = form or MEMORY_FORMS[int(rng.integers(0, len(MEMORY_FORMS)))]
+    if t.dim() == 1:
+        if form in ("strided", "column-major", "expanded"):
+            big = torch.zeros(t.shape[0] * 2, dtype=t.dtype)
+            big[::2] = t
+            return big[::2], "strided"
+        if form == "offset-slice":
+            big = torch.full((t.shape[0] + 3,), 7.0, dtype=t.dtype)
+            big[2:-1] = t
+            return big[2:-1], form
+        return t.clone(), "contiguous"
+    if form == "expanded":
+        if t.shape[0] > 1 and bool((t == t[0:1]).all()):
+            return t[0:1].clone().expand(t.shape[0], -1), form
+        form = "strided"
+    if form == "strided":
+        big = torch.full((t.shape[0] * 2, t.shape[1] * 2), 7.0, dtype=t.dtype)
+        big[::2, ::2] = t
+        return big[::2, ::2], form
+    if form == "column-major":
+        return t.t().contiguous().t(), form
+    if form == "offset-slice":
+        big = torch.full((t.shape[0] + 2, t.shape[1] + 3), 7.0, dtype=t.dtype)
+        big[1:-1, 2:-1] = t
+        return big[1:-1, 2:-1], form
+    return t.clone(), "contiguous"
+
+
+def memory_form_nd(t, rng, form=None):
+    """Same as memory_form for tensors of any rank (used for real-pair complex operands)."""
+    forms = ["contiguous", "strided", "reversed-layout", "offset-slice"]
+    form = form or forms[int(rng.integers(0, len(forms)))]
+    if t.dim() == 0 or form == "contiguous":
+        return t.clone(), "contiguous"
+    if form == "strided":
+        big = torch.full(tuple(2 * s for s in t.shape), 7.0, dtype=t.dtype)
+        sl = tuple(slice(None, None, 2) for _ in t.shape)
+        big[sl] = t
+        return big[sl], form
+    if form == "reversed-layout":
+        perm = tuple(reversed(range(t.dim())))
+        return t.permute(perm).contiguous().permute(perm), form
+    big = torch.full(tuple(s + 2 for s in t.shape), 7.0, dtype=t.dtype)
+    sl = tuple(slice(1, -1) for _ in t.shape)
+    big[sl] = t
+    return big[sl], form
